@@ -16,7 +16,7 @@ from common.util import Result, err_kind
 from common import nets
 
 ID = 'C14'
-N = {'quick': 3000, 'thorough': 60000}
+N = {'quick': 3000, 'thorough': 40000}
 LEAN_MODULES = ['GnpyProofs.Props.C14']
 THEOREMS = [f'Gnpy.Slots.{t}' for t in (
     'step_blocked_unchanged', 'step_accept_free', 'step_slots_disjoint', 'step_marks_exactly', 'served_cellAt',
